@@ -85,6 +85,17 @@ ForestDefects(nodes, roots, live, metaItems) ==
 
 ForestValid(nodes, roots, live, metaItems) == ForestDefects(nodes, roots, live, metaItems) = {}
 
+\* Reader::stats per tree: <<depth, dummy normals, split nodes, descendants nodes>>
+MaxI(a, b) == IF a > b THEN a ELSE b
+RECURSIVE TreeStats(_, _, _)
+TreeStats(nodes, ref, fuel) ==
+  IF IsItem(ref) \/ ~IsTree(ref) \/ ref[2] \notin DOMAIN nodes \/ fuel = 0 THEN <<1, 0, 0, 0>>
+  ELSE LET n == nodes[ref[2]] IN
+       IF IsBucket(n) THEN <<1, 0, 0, 1>>
+       ELSE LET a == TreeStats(nodes, n.l, fuel - 1)
+                b == TreeStats(nodes, n.r, fuel - 1)
+            IN <<1 + MaxI(a[1], b[1]), a[2] + b[2] + (IF n.plane.zero THEN 1 ELSE 0), a[3] + b[3] + 1, a[4] + b[4]>>
+
 \* C15: no bucket above the capacity
 BucketBound(nodes, cap) ==
   \A n \in DOMAIN nodes : IsBucket(nodes[n]) => Cardinality(nodes[n].items) <= cap
